@@ -109,7 +109,9 @@ func drawLiteral(t *rapid.T, o ExprOpts) string {
 	case 8:
 		return caseNoise(t, "null")
 	default:
-		return rapid.SampledFrom([]string{"0", "1", "2", "10", "0.5", "1.5", "100", "2147483648", "00", "01.10", "4294967296", "99999999999"}).Draw(t, "n")
+		return rapid.SampledFrom([]string{"0", "1", "2", "10", "0.5", "1.5", "100", "2147483648", "00", "01.10", "4294967296", "99999999999",
+			// literals longer than any fixed-width integer or a field value: 36/37/40 digits before and after the point
+			"123456789012345678901234567890123456", "1234567890123456789012345678901234567", "1000000000000000000000000000000000000000", "0.1234567890123456789012345678901234567", "18446744073709551616.18446744073709551616"}).Draw(t, "n")
 	}
 }
 
